@@ -262,6 +262,10 @@ EOF_TAILS = [
     ("C", "enum e { A, B };\n"),
     ("C", "struct s\n{\n    int a;\n};\n"),
     ("CPP", "namespace n\n{\nint a;\n}\n"),
+    ("CPP", "namespace n\n{\nint a;\n} // namespace n\n"),
+    ("CPP", "namespace o {\nnamespace n {\nint a;\n}\n}\n"),
+    ("C", "int b;\n/* *INDENT-OFF* */\nint   x;\n"),
+    ("C", "int b;\n#pragma asm\n  mov  a\n"),
     ("CPP", "class K\n{\npublic:\n    int f() { return 1; }\n};\n"),
     ("CPP", "struct P\n{\n    P()\n    {\n        ok->onClick([this](int code) {\n            run(code);\n        });\n    }\n};\n"),
     ("CPP", "static auto h = make_handler([](int v) {\n    return v + 1;\n});\n"),
@@ -280,7 +284,8 @@ def eof_configs(rng, n):
         l = ["nl_end_of_file=%s" % mode, "nl_end_of_file_min=%d" % mn]
         for name, vals in (("nl_max_blank_in_func", ["1", "2"]), ("nl_after_func_body", ["1", "2", "3"]), ("nl_after_func_body_class", ["1", "2"]),
                            ("nl_after_func_body_one_liner", ["1", "2"]), ("nl_after_struct", ["1", "2"]), ("nl_after_class", ["1", "3"]),
-                           ("nl_after_namespace", ["1", "2"]), ("nl_max", ["3", "4"]), ("eat_blanks_before_close_brace", ["true"]),
+                           ("nl_after_namespace", ["1", "2"]), ("nl_before_namespace", ["1", "2"]), ("nl_before_class", ["1", "2"]), ("nl_before_struct", ["2"]),
+                           ("nl_inside_namespace", ["1"]), ("nl_max", ["3", "4"]), ("eat_blanks_before_close_brace", ["true"]),
                            ("nl_after_whole_file_endif", ["1", "2"]), ("nl_squeeze_ifdef", ["true"]), ("nl_remove_extra_newlines", ["1"]),
                            ("nl_after_multiline_comment", ["true"]), ("nl_start_of_file", ["remove", "force"])):
             if rng.random() < 0.3:
@@ -384,7 +389,7 @@ def run(ctx):
                 jobs.append(("dense|%s|%s|%d" % (lang, vn, ci), src, None, cc, lang))
     # how the file ends: every kind of last construct x nl_end_of_file x minimum x the options that set newline counts near it
     for ti, (lang, tail) in enumerate(EOF_TAILS):
-        for nin in (0, 1, 3):
+        for nin in (0, 1, 3, 5):
             src = os.path.join(tmp, "tail%d_%d%s" % (ti, nin, EXT[lang]))
             obs.write(src, tail.rstrip("\n") + "\n" * nin)
             for ci, cc in enumerate(eof_configs(ctx.rng, 10 if quick else 40)):
